@@ -94,7 +94,7 @@ def run(ctx: Ctx, tier: str) -> Result:
 
     # ---------------- B / C
     sc = settrace_calls(ctx)
-    res.floor("settrace call sites", len(sc), 4)
+    res.floor("settrace call sites", len(sc), 2)
     entries = {f.qname for f, _, _ in settrace_entries(ctx)}
     installs = [(fi, c, e) for fi, c, e in sc if any(
         tt[0] in ("bound", "func") for tt in t.type_of(c.args[0], fi))] if sc else []
@@ -102,6 +102,12 @@ def run(ctx: Ctx, tier: str) -> Result:
     res.analysed["install sites"] = len(installs)
     res.analysed["restore sites"] = len(restores)
     need(installs, "no settrace install site found")
+    for api_ in ("sys.settrace", "threading.settrace"):
+        if not any(e == api_ for _, _, e in installs):
+            res.fail(Finding("C14.C", installs[0][0].qname, "<%s(self.trace_call)>" % api_, installs[0][0].loc(), "start does not install the hook through %s" % api_))
+        if any(e == api_ for _, _, e in installs) and not any(e == api_ for _, _, e in restores):
+            res.fail(Finding("C14.C", installs[0][0].qname, "<%s(saved hook)>" % api_, installs[0][0].loc(), "the hook installed through %s is never put back: after shutdown the "
+                             "agent's trace function stays installed instead of the one that was present before start" % api_))
 
     def enabled_guard(fi, call):
         """settrace call is control dependent on tracing being enabled."""
